@@ -17,6 +17,7 @@ RULE = (
     "objects, objects on borders/corners, extent-1 axes, random blobs up to 16^2 / 8^3, long thin arrays (up to 100000 voxels along one axis, objects far apart); each case also re-evaluated after "
     "zero padding 0..3 per side, after tight cropping and with exchanged arguments. Non-trivial = the two masks differ; "
     "distinct = hash of the two masks."
+    ' Further families: the same array objects rescored after in-place edits; calls with non-default options (connectivity, voxel spacing) before judged default calls.'
 )
 ASSUMPTIONS = [
     "border voxel = foreground voxel with a background or out-of-array face neighbour (the statement); distances Euclidean in voxel units",
